@@ -3,6 +3,7 @@ import io
 import os
 import shutil
 import tempfile
+from operator import attrgetter
 from pathlib import Path
 from typing import AbstractSet, Any, Literal, Sequence, Union, cast
 from zipfile import ZipFile
@@ -558,7 +559,7 @@ class AutoSerialize:
         module_name = cast(str, meta["class_module"])
         class_name = cast(str, meta["class_name"])
         module = __import__(module_name, fromlist=[class_name])
-        cls_obj = getattr(module, class_name)
+        cls_obj = attrgetter(class_name)(module)  # class_name is a __qualname__: may be dotted
         obj = cls_obj.__new__(cls_obj)  # Avoid __init__ side effects
 
         # If attrs package is used, only allow whitelisted attribute names
@@ -728,7 +729,7 @@ class AutoSerialize:
                 submod_name = cast(str, m["class_module"])
                 subcls_name = cast(str, m["class_name"])
                 submod = __import__(submod_name, fromlist=[subcls_name])
-                subcls = getattr(submod, subcls_name)
+                subcls = attrgetter(subcls_name)(submod)
                 if subcls in skip_types:
                     continue
                 val = subcls._recursive_load(subgrp, skip_names, skip_types)
@@ -951,7 +952,7 @@ class AutoSerialize:
                                 cast(str, meta["class_module"]),
                                 fromlist=[cast(str, meta["class_name"])],
                             )
-                            subcls = getattr(submod, cast(str, meta["class_name"]))
+                            subcls = attrgetter(cast(str, meta["class_name"]))(submod)
                             items.append(subcls._recursive_load(subgroup))
                         # Restore nested torch modules
                         elif subgroup.attrs.get("_torch_whole_module"):
@@ -1074,7 +1075,7 @@ class AutoSerialize:
                             cast(str, meta["class_module"]),
                             fromlist=[cast(str, meta["class_name"])],
                         )
-                        subcls = getattr(submod, cast(str, meta["class_name"]))
+                        subcls = attrgetter(cast(str, meta["class_name"]))(submod)
                         items.append(subcls._recursive_load(subgroup))
                     # Restore nested torch modules
                     elif subgroup.attrs.get("_torch_whole_module"):
@@ -1172,7 +1173,7 @@ class AutoSerialize:
                     submod = __import__(
                         cast(str, meta["class_module"]), fromlist=[cast(str, meta["class_name"])]
                     )
-                    subcls = getattr(submod, cast(str, meta["class_name"]))
+                    subcls = attrgetter(cast(str, meta["class_name"]))(submod)
                     result[key] = subcls._recursive_load(subgroup)
                 elif subgroup.attrs.get("_torch_whole_module"):
                     module_arr = cast(zarr.Array, subgroup["module"])
@@ -1454,7 +1455,7 @@ def load(
 
     # Dynamically import target class, then reconstruct from Zarr
     mod = __import__(cast(str, meta["class_module"]), fromlist=[cast(str, meta["class_name"])])
-    cls = getattr(mod, cast(str, meta["class_name"]))
+    cls = attrgetter(cast(str, meta["class_name"]))(mod)
     return cls._recursive_load(root, skip_names=skip_names, skip_types=skip_types)
 
 
